@@ -550,6 +550,10 @@ func (c20) Generate(seed uint64, i int, tier string) *Scenario {
 		case m < 96:
 			op.Op = "frzarg"
 			op.Args = []int64{int64(r.Intn(len(c20frzForms)))}
+			if r.Chance(1, 4) {
+				op.Op = "foreign"
+				op.Args = []int64{int64(r.Intn(5))}
+			}
 		case m < 97:
 			op.Op = "new"
 		default:
@@ -1342,7 +1346,13 @@ func (x *c20run) apply(op Op) {
 		case "scalar", "msg":
 			x.judgeScalar(kind, V, err, func() starlark.Value {
 				if op.Op == "setf" {
-					if r, _, _ := x.star(fmt.Sprintf("R = proto.get_field(A, Msg.%s)\n", op.S), env); r != nil {
+					r, gerr, pv := x.star(fmt.Sprintf("R = proto.get_field(A, Msg.%s)\n", op.S), env)
+					if pv != nil {
+						x.fail("host-panic", "proto.get_field(m, Msg.%s): Go panic: %v", op.S, pv)
+					} else if gerr != nil {
+						x.fail("read-back-failed", "proto.get_field(m, Msg.%s) of the message's own field: %v", op.S, gerr)
+					}
+					if r != nil {
 						return r
 					}
 				}
@@ -1485,6 +1495,21 @@ func (x *c20run) apply(op Op) {
 			}
 		}
 		_ = fd
+	case "foreign":
+		// a field descriptor of another message type: must be refused (an error,
+		// never a panic) and must leave the message as it was
+		before := detEnc(A)
+		forms := []string{"R = proto.get_field(A, Sub.s)\n", "def op():\n    proto.set_field(A, Sub.s, \"x\")\nop()\nR = None\n", "def op():\n    proto.set_field(A, Sub.n, 5)\nop()\nR = None\n", "R = proto.has(A, Sub.s)\n", "R = proto.get_field(A.sub, Msg.f_int32)\n"}
+		_, err := run(forms[int(op.Args[0])%len(forms)])
+		if len(x.res.Violations) > nviol {
+			return
+		}
+		if err == nil {
+			x.fail("invalid-value-accepted", "%s accepted a field of another message type", strings.TrimSpace(forms[int(op.Args[0])%len(forms)]))
+		}
+		if !bytes.Equal(before, detEnc(A)) {
+			x.fail("ill-typed-field", "a refused foreign-field operation changed the message")
+		}
 	case "frzarg":
 		form := c20frzForms[int(op.Args[0])%len(c20frzForms)]
 		run("def op():\n    " + form + "\nop()\nR = None\n")
